@@ -57,6 +57,13 @@ def replay(ctx, doc):
         for f in hit:
             print("implementation:", f["what"])
         return bool(hit)
+    if doc["failure"]["input"].get("family") == "custom-parser":
+        r = Result()
+        c19_parsers.custom_parser_cases(ctx, r)
+        hit = [f for f in r.oracle_failures if f["input"] == doc["failure"]["input"]]
+        for f in hit:
+            print("implementation:", f["what"])
+        return bool(hit)
     if doc["failure"]["input"].get("family") == "stat-fallback":
         r = Result()
         c19_parsers.stat_fallback_cases(ctx, r)
